@@ -1,4 +1,24 @@
-// unit int_parse_api (C07, parsing half): integer/src/parse/mod.rs
+// unit int_parse_api (C07, parsing half): integer/src/parse/mod.rs -- UBig::{from_str_radix_no_sign, from_str_radix,
+// from_str_with_radix_prefix_no_sign, from_str_with_radix_default, from_str_with_radix_prefix}, IBig::{from_str_radix,
+// from_str_with_radix_default, from_str_with_radix_prefix}, FromStr for UBig / IBig.
+// Post (property statement + the documented grammar; lib/parse_api_spec.rs): the text is  [sign] [prefix] body  with
+// sign '+' (UBig) or '+' / '-' (IBig), prefix "0b" / "0o" / "0x" (the *_with_radix_* forms; radix 2 / 8 / 16, otherwise the
+// default radix), and
+//     body_result(body, radix) = Err(NoDigits)      if body is empty or consists of '_' only
+//                              = Ok(digits_value(strip_us(body), radix))   if every byte is '_' or a digit of the radix
+//                              = Err(InvalidDigit)  otherwise  ("invalid characters are rejected, never silently accepted")
+// the result is exactly that (negated for '-'), plus the radix used; Err(UnsupportedRadix) iff radix is outside 2..=36
+// (from_str_radix).  Leading-zero stripping is proved value-preserving.
+// The digit parsers are seen through their contracts (SIG: proved in units int_parse_p2 / int_parse_npt).
+// Trusted: lib/parse_str.rs (string model: as_bytes / len / strip_prefix of an ASCII pattern), lib/parse_stubs.rs,
+// lib/repr_stubs.rs (Repr::with_sign), Option::unwrap_or / Result::map (vstd), u32::is_power_of_two.  Engine rule D15b
+// (`src.bytes().all(|b| b == b'_')`): helper lib/parse_str_all.rs verified here.
+// RESTRICTION (defect, reported): `from_str_with_radix_default(src, default_radix)` does NOT validate `default_radix`:
+// for default_radix outside 2..=36 and a text without prefix it panics (debug: `debug_assert!(is_radix_valid)`; release:
+// division by zero for 0 / 1, `assert!(is_radix_valid(radix))` in digit_from_ascii_byte otherwise) instead of returning
+// Err(UnsupportedRadix) as from_str_radix does.  The contracts of the three *_default / *_no_sign functions therefore
+// REQUIRE 2 <= default_radix <= 36.
+// Resource precondition everywhere: the text has at most Buffer::MAX_CAPACITY (usize::MAX / WORD_BITS) bytes.
 #![allow(unused_imports, unused_variables, dead_code, non_snake_case, unused_mut, unused_parens, unused_braces, non_camel_case_types)]
 use vstd::prelude::*;
 verus! {
@@ -29,9 +49,16 @@ use super::*;
 impl UBig {
 //@@ FN integer/parse/ubig_from_str_radix_no_sign.rs
 //@@ FN integer/parse/ubig_from_str_radix.rs
+//@@ FN integer/parse/ubig_prefix_no_sign.rs
+//@@ FN integer/parse/ubig_radix_default.rs
+//@@ FN integer/parse/ubig_radix_prefix.rs
 }
 impl IBig {
 //@@ FN integer/parse/ibig_from_str_radix.rs
+//@@ FN integer/parse/ibig_radix_default.rs
+//@@ FN integer/parse/ibig_radix_prefix.rs
 }
+//@@ FN integer/parse/ubig_from_str.rs
+//@@ FN integer/parse/ibig_from_str.rs
 } // verus!
 fn main() {}
